@@ -294,6 +294,9 @@ def vals_apply(vname, rep):
     return True
 
 
+STREAM_EXTRA_REPS = ["char", "char16_t", "char32_t", "wchar_t"]
+
+
 def stmt_body(rep, name, stmt, vname="V0", cx=False):
     a, b, f, t = [v for n, v, k in VALUES if n == vname][0]
     tag = "%s/%s/%s%s" % (name, rep, vname, "/cx" if cx else "")
@@ -379,7 +382,10 @@ def check(run):
     reps = R11
     probes, twins = [], []
     for name, stmt in SURFACE_STMTS:
-        for rep in reps:
+        # streaming also over the character-typed reps: <ostream> treats them specially (char prints a glyph; the
+        # char16_t/char32_t/wchar_t inserters are deleted from C++20 on), so "prints the number under every standard"
+        # is a statement about exactly these reps
+        for rep in reps + (STREAM_EXTRA_REPS if "stream" in name else []):
             probes.append(core.Probe((name, rep), stmt_body(rep, name, stmt), "accept", {"dedup": None}))
             if name in CONSTEXPR_OK and rep in CX_REPS:
                 twins.append(core.Probe((name + "/cx", rep), stmt_body(rep, name, stmt, cx=True), "accept", {"dedup": None}))
